@@ -93,6 +93,9 @@ def run(tier, run_k):
     cov["distinct_nontrivial"] += len(okd)
     cov["obligations"] = cov.get("obligations", 0) + len(d["results"])
     cov["discharged"] = cov.get("discharged", 0) + len(okd)
+    cov["states"] = cov.get("states", 0) + sum(r.get("blocks", 0) for r in d["results"])
+    cov["transitions"] = cov.get("transitions", 0) + sum(r.get("feasibility_queries", 0) + r.get("n_checks", 0) for r in d["results"])
+    cov["traces_validated_against_impl"] = cov.get("traces_validated_against_impl", 0) + (d["validation"].get("inputs") or 0)
     cov["dates"] = {
         "function_encoded": "humphrey/src/http/date.rs: <DateTime as From<i64>>::from (MIR of the current working tree)",
         "range": "every timestamp 0..=253402300799 (1970-01-01 .. 9999-12-31T23:59:59Z)",
